@@ -29,11 +29,11 @@ def mutants(r, img, quick):
     out = []
     L = len(img)
     # every truncation point (sampled for long images)
-    cuts = range(L) if L <= (150 if quick else 3000) else sorted(set(r.randrange(L) for _ in range(150 if quick else 3000)))
+    cuts = range(L) if L <= (150 if quick else 600) else sorted(set(r.randrange(L) for _ in range(150 if quick else 600)))
     for k in cuts:
         out.append(img[:k])
     # single-byte substitutions: all positions for short images, sampled otherwise
-    pos = range(L) if L <= (50 if quick else 1500) else sorted(set(r.randrange(L) for _ in range(50 if quick else 1500)))
+    pos = range(L) if L <= (50 if quick else 250) else sorted(set(r.randrange(L) for _ in range(50 if quick else 250)))
     for p in pos:
         for v in {0, 1, 2, 3, 6, 7, 13, 17, 0x7f, 0x80, 0xff, (img[p] + 1) & 255, (img[p] - 1) & 255}:
             if v != img[p]:
@@ -67,7 +67,7 @@ def run(ctx):
         return ctx.finish()
     r = ctx.rng
     t0 = time.time()
-    imgs = valid_images(ctx, h, 10 if quick else 400)
+    imgs = valid_images(ctx, h, 10 if quick else 60)
     cases = []
     for im in imgs:
         cases.append(im)
@@ -81,7 +81,7 @@ def run(ctx):
                 for month in range(1, 13):
                     for day in (1, 28, 29, 30, 31):
                         cases.append(im[:k] + struct.pack(">i", year) + bytes([month, day]) + im[k + 6:])
-    for _ in range(500 if quick else 20000):
+    for _ in range(500 if quick else 5000):
         cases.append(bytes(r.randrange(256) for _ in range(r.randint(0, 60))))
     for seed_len in (2**64 - 1, 2**63, 2**32, 2**31):
         cases.append(u64(seed_len)); cases.append(u64(1) + u64(seed_len)); cases.append(u64(1) + u64(1) + b"a" + bytes([8]) + u64(seed_len))
